@@ -130,7 +130,8 @@ def parseGraph (j : Json) : Except String Graph := do
   let stopPoint := (jOptField j "stop_point").bind jInt?
   let cfgStop := (jOptField j "cfg_stop").bind jInt?
   let anyOutput := (jBoolField? j "trig_any_output").getD true
-  return { icp, fcp, start, runahead, tasks, seqs, stopPoint, cfgStop, anyOutput }
+  let triggerUnpooled := (jBoolField? j "trig_unpooled").getD true
+  return { icp, fcp, start, runahead, tasks, seqs, stopPoint, cfgStop, anyOutput, triggerUnpooled }
 
 def parseTaskId (s : String) : Except String (Int × String) :=
   match s.splitOn "/" with
